@@ -623,16 +623,25 @@ theorem mod_weights_recorded (st : St) (p : ModPlacement) (he : st.err = none)
           get2 (applyMod st p).molToOut a o = some w ∧ get2 (applyMod st p).outToMol o a = some w) :=
   applyMod_records st p he hok a b ws w ha hb
 
-/-- `overlay_keeps_identity`: applying a modification match never touches an existing particle:
-the particle table only grows at its end (new `PTM_atom` particles), so a particle a modification
-node is laid over keeps its key, name, resid and charge group; overlap and spawned sets are
-unchanged -/
+/-- `overlay_keeps_identity`: applying a modification match never removes or renumbers an existing
+particle: every existing particle keeps its key and position, the table only grows at its end (new
+`PTM_atom` particles); when no node of the modification has a `replace` dictionary touching
+atomname / resid / charge_group the existing particles keep name, resid and charge group as well
+(otherwise exactly the overlaid particles change, see `placeModNodes`); overlap and spawned sets
+are unchanged -/
 theorem overlay_keeps_identity (st : St) (p : ModPlacement) (he : st.err = none)
     (hok : (applyMod st p).err = none) :
-    (∃ extra, (applyMod st p).out.nodes = st.out.nodes ++ extra)
+    (∃ (f : Int × Attrs → Int × Attrs) (extra : List (Int × Attrs)),
+        (∀ q, (f q).1 = q.1) ∧ (applyMod st p).out.nodes = st.out.nodes.map f ++ extra
+        ∧ ((∀ n ∈ p.nodes, n.repl = {}) → (applyMod st p).out.nodes = st.out.nodes ++ extra))
     ∧ (applyMod st p).overlap = st.overlap ∧ (applyMod st p).spawned = st.spawned := by
-  obtain ⟨_, _, _, _, _, _, _, _, h6, h7, h8⟩ := applyMod_spec st p he hok
-  exact ⟨h8, h6, h7⟩
+  obtain ⟨_, _, _, _, _, _, _, _, h6, h7, f, extra, hk, hn, hid⟩ := applyMod_spec st p he hok
+  refine ⟨⟨f, extra, hk, hn, ?_⟩, h6, h7⟩
+  intro hr
+  rw [hn]
+  congr 1
+  have : f = id := funext (hid hr)
+  rw [this, List.map_id]
 
 theorem insertDescM_perm (x : ModPlacement) (l : List ModPlacement) : (insertDescM x l).Perm (x :: l) := by
   induction l with
@@ -701,7 +710,7 @@ def exMol3 : MolIn :=
 def exRes (a b : Int) : Placement := { molToBlock := [(a, [(0, 1)]), (b, [(0, 1)])], block := exB1, refs := [] }
 /-- a modification on the second residue: anchor atom 11 laid over `B1`, PTM atom 12 becomes a new particle `Q1` -/
 def exMod : ModPlacement := ModPlacement.mk [(11, [(0, 1)]), (12, [(1, 1)])]
-  [ModNode.mk 0 { name := some "B1" } false, ModNode.mk 1 { name := some "Q1" } true] [(0, 1)] [] []
+  [ModNode.mk 0 { name := some "B1" } false {}, ModNode.mk 1 { name := some "Q1" } true {}] [(0, 1)] [] []
 
 /-- `residue_offset_restarts`: three residues, the second carries a modification whose mapping
 creates a new particle.  The new particle is the last node when the third block is merged and has
@@ -716,7 +725,7 @@ theorem residue_offset_restarts :
 
 -- hypotheses of the modification theorems on this instance
 example : (applyMod (placeAll [exRes 0 1, exRes 10 11]) exMod).err = none := by decide
-example : overlayTarget (placeAll [exRes 0 1, exRes 10 11]) exMod (ModNode.mk 0 { name := some "B1" } false) = some 2 := by
+example : overlayTarget (placeAll [exRes 0 1, exRes 10 11]) exMod (ModNode.mk 0 { name := some "B1" } false {}) = some 2 := by
   decide
 example : modKey exMod = 12 ∧ minKey (exRes 20 21) = 20 := by decide
 example : cover 3 ["PHOS", "METH"] [["METH", "PHOS"], ["PHOS"], ["METH"]] = some [["METH", "PHOS"]] := by decide
